@@ -2,7 +2,7 @@
 
 Histories of constructor / accessor / copy / pickle / pixel-write operations, interpreted against a reference model that keeps a
 shadow copy of every array it has ever seen (updated only by the model's own write rule). Exhaustive for all histories up to length
-3 (quick) / 4 (thorough) over a 30-letter alphabet (15 operations x {original frame, most recent frame}), random beyond (<= 30 steps).
+3 (quick) / 4 (thorough) over a 34-letter alphabet (17 operations x {original frame, most recent frame}), random beyond (<= 30 steps).
 """
 import itertools
 import pickle
@@ -15,7 +15,7 @@ LEVEL = 'exploration'
 RULE = ('Op sequences over a pool of frames (ops refer to frames by index modulo pool size, so every sub-sequence is executable): '
         'new / from_jpg / Frame(frame, data, format) / copy rw ro rgb bgr gray rw_rgb rw_bgr ro_rgb ro_bgr / .image / .jpg / pickle / '
         'write pixels through any writable image; starts writable or read-only GRAY/BGR/RGB of sizes 1x1 1x3 2x2 3x5 and jpg-backed. '
-        'Exhaustive part: every history up to the stated length over {15 ops} x {original, most recent frame} from 9 starts. '
+        'Exhaustive part: every history up to the stated length over {17 ops} x {original, most recent frame} from 9 starts. '
         'Non-trivial = the history contains a pixel write followed by an accessor on a frame that was accessed before the write. '
         'Distinct = distinct op sequence (random part) / distinct (start, 2-op prefix) chunk (exhaustive part, conservative).')
 ASSUMPTIONS = ['read-only starts are owning arrays with writeable=False (a read-only view of a writable base is the caller breaking the contract)',
@@ -158,6 +158,8 @@ class Interp:
         elif kind == 'wrap':
             src = self.frames[self.pick(op[1])]
             fmt = op[2]
+            if fmt == 'SWAP':       # the other colour format (a relabel, pixels untouched), none for GRAY / image-less frames
+                fmt = {'RGB': 'BGR', 'BGR': 'RGB'}.get(src.format)
             if fmt is not None and (src.format is None or (src.format == 'GRAY') != (fmt == 'GRAY')):
                 fmt = None          # relabelling between GRAY and colour is not a valid call
             new = self.api('Frame(frame)', lambda: Frame(src, {'w': 1} if op[3] else None, fmt))
@@ -315,14 +317,14 @@ op_st = st.one_of(
     st.tuples(st.just('image'), idx),
     st.tuples(st.just('jpg'), idx),
     st.tuples(st.just('pickle'), idx),
-    st.tuples(st.just('wrap'), idx, st.sampled_from([None, 'RGB', 'BGR', 'GRAY']), st.booleans()),
+    st.tuples(st.just('wrap'), idx, st.sampled_from([None, 'RGB', 'BGR', 'GRAY', 'SWAP', 'SWAP']), st.booleans()),
     st.tuples(st.just('new'), start_st),
 ).map(list)
 case_st = st.fixed_dictionaries({'start': start_st, 'ops': st.lists(op_st, min_size=1, max_size=30)})
 
 # exhaustive alphabet: 15 operations x target in {0 = original frame, -1 = most recent frame}
 ALPHA = [['acc', t, a] for a in ACCESSORS for t in (0, -1)] + [[k, t] for k in ('image', 'jpg', 'pickle') for t in (0, -1)] + \
-        [['write', t, 7] for t in (0, -1)] + [['wrap', t, None, True] for t in (0, -1)]
+        [['write', t, 7] for t in (0, -1)] + [['wrap', t, None, True] for t in (0, -1)] + [['wrap', t, 'SWAP', False] for t in (0, -1)]
 EX_STARTS = [{'size': 3, 'fmt': f, 'rw': rw, 'jpg': False, 'seed': 1} for f in FMTS for rw in (True, False)] + \
             [{'size': 3, 'fmt': f, 'rw': False, 'jpg': True, 'seed': 1} for f in FMTS]
 
